@@ -2,9 +2,9 @@
 import eng_heap
 PROP = "C01"
 NEEDS = {"profiles": ["debug", "release"], "modelrun": True}
-RULE = ("seeded random histories (3..30/60 operations, up to ~8 live handles) over 45 operations of Bytes / BytesMut / Vec<u8> starting from every "
+RULE = ("seeded random histories (3..30/60 operations, up to ~8 live handles) over 45 operations + 15 further public entry points (expanded by EntryDef.expand) of Bytes / BytesMut / Vec<u8> starting from every "
         "representation (static, Vec-backed exact/spare, owner-backed incl. panicking as_ref, BytesMut inline/shared, zero-capacity), boundary-biased arguments, "
-        "in {debug, release} x {even, odd byte-buffer addresses}; this property: every live handle's contents and length after every step equal the value model M1 (independent Vec<u8> per handle); return handles; non-trivial = history with >= 2 simultaneously live handles or a panic")
+        "in {debug, release} x {even, odd byte-buffer addresses}, plus arena histories (adjacent buffers) and big histories (payloads 1 KiB..128 KiB, half of them focused on one or two handles with the operations of a codec buffer); this property: every live handle's contents and length after every step equal the value model M1 (independent Vec<u8> per handle); return handles; non-trivial = history with >= 2 simultaneously live handles or a panic")
 ASSUMPTIONS = ["block-memory semantics of raw pointers / Vec / Box as modelled in Heap.v", "std's Vec growth is an oracle: the observed capacity is fed to the model",
                "uninitialised-memory reads and provenance are not tracked"]
 TRUSTED_EXTRA = ["ledger allocator harness/src/ledger.rs (tracked sections, quarantine, red zones)"]
